@@ -169,6 +169,35 @@ end package;
     check_diagnostics(diagnostics, vec![missing_full_error(&code.s1("rec_t"))]);
 }
 
+#[test]
+fn subtype_declaration_does_not_complete_incomplete_type() {
+    let mut builder = LibraryBuilder::new();
+    let code = builder.code(
+        "libname",
+        "
+package pkg is
+  type rec_t;
+  subtype rec_t is rec_t;
+  constant c : rec_t := 0;
+end package;
+",
+    );
+
+    let diagnostics = builder.analyze();
+    check_diagnostics(
+        diagnostics,
+        vec![
+            missing_full_error(&code.s1("rec_t")),
+            duplicate(&code, "rec_t", 1, 2),
+            Diagnostic::new(
+                code.s1("0"),
+                "integer literal does not match type 'rec_t'",
+                ErrorCode::TypeMismatch,
+            ),
+        ],
+    );
+}
+
 fn missing_full_error(pos: &impl AsRef<SrcPos>) -> Diagnostic {
     let mut error = Diagnostic::new(
         pos,
